@@ -539,7 +539,7 @@ package commitlog
 //@   assumes l.vActiveSegment != nil
 //@   call send.ch requires [the-end-is-announced-only-when-the-watermark-has-reached-the-log-end] arg1 && l.hw >= nextOffset(l) - 1
 //@   ensures [readers-below-a-lagging-watermark-stay-parked] old(l.hw) < old(nextOffset(l)) - 1 ==> l.hwWaiters == old(l.hwWaiters)
-//@ func (*commitLog).HighWatermark serves C03, C01, C10
+//@ func (*commitLog).HighWatermark serves C03, C01, C10, C11
 //@   requires l != nil
 //@   modifies nothing
 //@   ensures result == l.hw
@@ -733,7 +733,8 @@ package commitlog
 //@ func newReverseIndexScanner serves C08, C10, C11
 //@   ensures result != nil && fresh(result) && result.idx == idx && result.offset == startOffset
 //@ func newReverseSegmentScanner serves C08, C10, C11
-//@   requires segment != nil && segment.Index != nil && segment.Index.position >= 0
+//@   requires segment != nil
+//@   assumes segment.Index != nil && segment.Index.position >= 0
 //@   assumes forall i int64, j int64 :: 0 <= i && i < j && j < entryCount(segment.Index) ==> entryOffAt(segment.Index, i) < entryOffAt(segment.Index, j)
 //@   ensures [scans-this-segment] result != nil && result.s == segment && result.ris != nil && result.ris.idx == segment.Index
 //@   ensures [slot-in-range] -1 <= result.ris.offset && result.ris.offset < entryCount(segment.Index)
@@ -747,10 +748,10 @@ package commitlog
 //
 // findSegment: the first segment whose next offset is above the argument (binary search; the segment list is
 // ordered by next offset - assumed at entry, it is the log's representation invariant)
-//@ func findSegment$1 serves C03, C01, C10
+//@ func findSegment$1 serves C03, C01, C10, C11
 //@   assumes 0 <= i && i < len(segments) && segments[i] != nil
 //@   ensures result == (nextOf(segments[i]) > offset)
-//@ func findSegment serves C03, C01, C10
+//@ func findSegment serves C03, C01, C10, C11
 //@   returns (seg, idx)
 //@   assumes forall i int :: 0 <= i && i < len(segments) ==> segments[i] != nil
 //@   assumes forall i int, j int :: 0 <= i && i < j && j < len(segments) ==> nextOf(segments[i]) <= nextOf(segments[j])
@@ -766,6 +767,23 @@ package commitlog
 //@   modifies nothing
 //@   ensures [a-segment-that-contains-the-offset-is-there] contains ==> seg != nil && seg.BaseOffset <= offset && nextOf(seg) > offset
 //@   ensures [the-first-segment-ending-above-the-offset] seg != nil ==> (exists k int :: 0 <= k && k < len(segments) && seg == segments[k] && nextOf(seg) > offset && (forall i int :: 0 <= i && i < k ==> nextOf(segments[i]) <= offset))
+
+// NewReverseReader: a committed reverse read starts at the requested offset or at the high watermark, whichever is lower -
+// in the SEGMENT that holds that offset and at that offset within it (the segment search and the scanner are given the
+// same, capped, offset: a start segment looked up for the requested offset lies beyond the watermark when a roll
+// happened inside the uncommitted tail, and everything in it and between would be handed out)
+//@ ghost var revHW int64
+//@ ghost var revSegOffset int64
+//@ ghost var revSeg *segment
+//@ func (*commitLog).NewReverseReader serves C03, C10, C11
+//@   returns (rd, err)
+//@   assumes l != nil
+//@   ghost after call HighWatermark: ghost.revHW := ret0
+//@   ghost after call findSegment: ghost.revSegOffset := arg1
+//@   ghost after call findSegment: ghost.revSeg := ret0
+//@   call findSegment requires [C03:a-committed-reverse-read-starts-at-or-below-the-watermark] uncommitted || arg1 <= ghost.revHW
+//@   call findSegment requires [C10:at-the-requested-offset-when-that-is-committed] arg1 == startOffset || (!uncommitted && (startOffset > ghost.revHW || startOffset == -1) && arg1 == ghost.revHW)
+//@   call newReverseSegmentScanner requires [the-scan-starts-in-the-segment-looked-up-for-its-start-offset] arg0 == ghost.revSeg && arg1 == ghost.revSegOffset
 
 // committedReader.Read, reader parked beyond the watermark: after the watermark moved, reading resumes at the
 // message after the OLD watermark - in the segment that holds it, at that message's entry - so nothing that
